@@ -3,6 +3,12 @@
 Usage: seed_prompt.py Cxx <worktree> <outdir>.  The agent sees only the property text."""
 import json, sys
 pid, wt, out = sys.argv[1:4]
+import glob, os
+prev = []
+for f in sorted(glob.glob('/verif/seeded/%s-*/meta.json' % pid)):
+    m = json.load(open(f))
+    prev.append('  - ' + (m.get('title') or '').strip())
+prev_txt = ('\nChanges of this kind that were ALREADY produced in an earlier round - do NOT repeat them or near variants, attack other clauses, other code paths and other mechanisms:\n' + '\n'.join(prev) + '\n') if prev and '--fresh' not in sys.argv else ''
 p = [json.loads(l) for l in open('/verif/properties.jsonl') if json.loads(l)['id'] == pid][0]
 print(f"""You are testing how well a verification effort can detect subtle regressions in the CherryPy web framework. You have your own scratch git worktree of the project at {wt} (a checkout of the current HEAD of the repository; Python 3.12 interpreter with all dependencies: /venv/bin/python). Work ONLY inside {wt} and {out} (create {out}); do not look at or touch /verif or /repo, and do not read any directory other than {wt}, {out} and the Python standard library.
 
@@ -18,6 +24,8 @@ Your task: produce THREE different, independent, realistic changes (bugs a maint
   (b) still passes the project's existing test-suite modules that exercise the touched code, unedited (run them: `cd {wt} && flock /tmp/cp-pytest.lock /venv/bin/python -m pytest -q -p no:cacheprovider cherrypy/test/test_<relevant>.py`; the flock matters because the suite binds a fixed TCP port and others run it concurrently; the tests test_conn.py::LimitedRequestQueueTests::test_queue_full and test_core.py::CoreRequestHandlingTest::testRedirect fail on the pristine tree already and may be ignored; running from {wt} makes pytest import the worktree's cherrypy), and
   (c) BREAKS the property above in a way that needs something specific to manifest — a particular interleaving, a crash or fault at a particular point, a multi-step sequence of operations, an unusual input, or two cooperating sites — NOT something ordinary use would expose at once.
 Prefer three changes that attack different parts/clauses of the property and different mechanisms.
+{prev_txt}
+Never use `git stash` (the stash is shared between worktrees of the repository and other agents work concurrently in their own worktrees); to set a change aside use `git -C {wt} diff > file; git -C {wt} checkout -- .; git -C {wt} apply file`.
 
 For each change i in 1..3 write into {out}/{'{i}'}/ :
   - patch.diff : `git -C {wt} diff` of that change alone against the pristine HEAD (make each change on a clean tree: `git -C {wt} checkout -- .` between changes),
